@@ -23,6 +23,9 @@ package logx
 //@   opaque backupTaken
 //@   let targetExists = ret(backupTaken)
 //@   ensures [existing-backup-never-overwritten] calls(os.Rename) == 1 ==> calls(backupTaken) == 1 && arg(backupTaken, 0) == old(l.backup) && (targetExists ==> arg(os.Rename, 1) == ret(l.rule.BackupFilename, 0, 1)) && (!targetExists ==> arg(os.Rename, 1) == old(l.backup))
+// what is compressed and counted among the backups afterwards is the file the current log was just renamed TO (not
+// the planned name: the two differ exactly when the planned name was taken)
+//@   ensures [the-renamed-backup-is-post-processed] calls(os.Rename) == 1 && ret(os.Rename) == nil ==> calls(l.postRotate) == 1 && arg(postRotate, 1) == arg(os.Rename, 1)
 //@   ensures [rename-current-to-backup] calls(os.Rename) <= 1 && (calls(os.Rename) == 1 ==> arg(os.Rename, 0) == old(l.filename))
 //@   ensures [rename-iff] calls(os.Create) == 1 ==> (calls(os.Rename) == 1) == (ret(os.Stat, 1) == nil && len(old(l.backup)) > 0)
 //@   ensures [next-backup-name] calls(os.Create) == 1 ==> l.backup == ret(l.rule.BackupFilename, 0, last)
@@ -131,6 +134,14 @@ package logx
 //@   ensures [existing-file-size-counted] existing && result == nil ==> calls(os.OpenFile) == 1 && calls(os.Create) == 0 && l.currentSize == ret(ret(os.Stat, 0, 1).Size)
 //@   ensures [new-file-starts-at-old-count] !existing && result == nil ==> calls(os.Create) == 1 && l.currentSize == old(l.currentSize)
 //@   ensures [backup-name-from-rule] l.backup == ret(l.rule.BackupFilename)
+
+// The daily rule starts on TODAY's date, in the spelling ShallRotate compares with (a rule that starts with any other
+// text "sees a new day" at the first write after every start and rotates onto the backup of the same date).
+//@ func DefaultRotateRule
+//@   prop C19
+//@   opaque getNowDate
+//@   let dr = unbox(result, ptr(DailyRotateRule))
+//@   ensures [daily-rule-starts-today] typeis(result, ptr(DailyRotateRule)) && calls(getNowDate) == 1 && dr.rotatedTime == ret(getNowDate) && dr.filename == filename && dr.delimiter == delimiter && dr.days == days && dr.gzip == gzip
 
 // The size-limit rule stores the configured limits where ShallRotate / OutdatedFiles read them.
 //@ func NewSizeLimitRotateRule
